@@ -59,8 +59,10 @@ impl CRawWaker {
             CRawWaker::to_raw(waker)
         }
         unsafe fn wake(data: *const ()) {
+            // The inner waker is shared by all clones of this handle, it must not be consumed
+            // here. It is released when the last handle goes away (see `Drop for CRawWaker`).
             let this = BaseArc::from_raw(data as *const CRawWaker);
-            (this.vtable.wake)(this.waker)
+            (this.vtable.wake_by_ref)(this.waker)
         }
         unsafe fn wake_by_ref(data: *const ()) {
             let data = data as *const CRawWaker;
@@ -68,13 +70,19 @@ impl CRawWaker {
             (this.vtable.wake_by_ref)(this.waker)
         }
         unsafe fn drop(data: *const ()) {
-            let this = BaseArc::from_raw(data as *const CRawWaker);
-            (this.vtable.drop)(this.waker)
+            let _ = BaseArc::from_raw(data as *const CRawWaker);
         }
 
         let vtbl = &RawWakerVTable::new(clone, wake, wake_by_ref, drop);
 
         RawWaker::new(this.into_raw() as *const (), vtbl)
+    }
+}
+
+impl Drop for CRawWaker {
+    fn drop(&mut self) {
+        // Runs once, when the last foreign-side handle sharing this clone is gone.
+        unsafe { (self.vtable.drop)(self.waker) }
     }
 }
 
